@@ -59,11 +59,13 @@ def _natural_end(spec):
 
     p = corpus.make_problem(spec)
     kw = dict(spec["kwargs"], maxiter=400, maxfun=4000)
+    fvals = []
     try:
-        r = lbfgsb.minimize_lbfgsb(x0=p.x0, fun=p.fun, jac=p.grad, bounds=p.bounds, gtol=spec["gtol"][1], **kw)
+        r = lbfgsb.minimize_lbfgsb(x0=p.x0, fun=p.fun, jac=p.grad, bounds=p.bounds, gtol=spec["gtol"][1],
+                                   callback=lambda xk, st: fvals.append(float(st.fun)) and False, **kw)
     except Exception:  # noqa: BLE001
         return None
-    return int(r.nfev), int(r.nit), r.message
+    return int(r.nfev), int(r.nit), r.message, fvals
 
 
 def budget_sweeps(ctx):
@@ -87,8 +89,13 @@ def budget_sweeps(ctx):
     for b, e in zip(base, ends):
         if e is None or e[0] > 600:
             continue
-        nfev, nit, msg = e
+        nfev, nit, msg, fvals = e
         abnormal += "ABNORMAL" in msg
+        # targets on the knife edge: exactly the value attained at iteration k, one ulp below it, one ulp above it
+        for k in sorted({0, len(fvals) // 2, len(fvals) - 2} & set(range(len(fvals)))):
+            v = fvals[k]
+            for t in (v, float(np.nextafter(v, -np.inf)), float(np.nextafter(np.nextafter(v, -np.inf), -np.inf)), float(np.nextafter(v, np.inf))):
+                out.append(dict(b, ftarget_abs=["float", t], kwargs=dict(b["kwargs"], maxfun=4000, maxiter=1000)))
         ml = b["kwargs"]["maxls"]
         for mf in sorted({max(1, nfev + d) for d in (-2, -1, 0, 1, 2, ml // 2, ml - 1, ml, ml + 1)}):
             out.append(dict(b, kwargs=dict(b["kwargs"], maxfun=int(mf), maxiter=1000)))
